@@ -37,7 +37,8 @@ type ProtoCase struct {
 	Ifaces    []string   `json:"ifaces"`
 	Conns     []ConnCase `json:"conns"`
 	Transport string     `json:"transport"` // "pipe" (fake listener) | "unix" (abstract socket, Bind+DoListen)
-	Probe     bool       `json:"probe"`     // a second, well-behaved connection does GetInfo before/after
+	Probe     bool       `json:"probe"`     // a second, well-behaved connection does GetInfo before/during/after
+	IdleEnd   bool       `json:"idle_end,omitempty"` // pipe only: serve with an idle timeout and end by an injected accept-timeout expiry instead of Shutdown
 	Origin    string     `json:"origin,omitempty"`
 }
 
@@ -174,6 +175,26 @@ func (p *protoSvc) stop(bound time.Duration) error {
 	}
 }
 
+// stopByTimeout: all connections are gone, so the next accept-timeout expiry must end serving with ServiceTimeoutError.
+func (p *protoSvc) stopByTimeout(bound time.Duration) error {
+	dl := time.Now().Add(bound)
+	for !p.fake.Blocked() && time.Now().Before(dl) {
+		time.Sleep(50 * time.Microsecond)
+	}
+	p.fake.InjectTimeout()
+	defer p.cancel()
+	select {
+	case err := <-p.done:
+		if _, ok := err.(varlink.ServiceTimeoutError); !ok {
+			return fmt.Errorf("idle service with no connection left: accept-timeout expiry made DoListen return %v, want ServiceTimeoutError", err)
+		}
+		return nil
+	case <-time.After(bound):
+		p.svc.Shutdown()
+		return fmt.Errorf("DoListen did not return within %v after an accept-timeout expiry although all connections are gone (a connection is still accounted as open)", bound)
+	}
+}
+
 // readFrames reads until EOF or until want complete frames were seen (want < 0: until EOF).
 func readFrames(conn net.Conn, want int, bound time.Duration) (got []byte, eof bool, timedOut bool) {
 	buf := make([]byte, 65536)
@@ -201,6 +222,7 @@ func readFrames(conn net.Conn, want int, bound time.Duration) (got []byte, eof b
 }
 
 type connResult struct {
+	toEOF    bool // the client read until EOF (not just the expected number of frames)
 	got      []byte
 	eof      bool
 	timedOut bool
@@ -240,7 +262,11 @@ type ProtoOutcome struct {
 // ExecProto runs the scenario and returns a violation description or nil.
 func ExecProto(c ProtoCase, bound time.Duration) (*ProtoOutcome, error) {
 	bound *= WatchdogScale()
-	p, err := startProtoSvc(c.Ifaces, c.Transport, 0)
+	var idle time.Duration
+	if c.IdleEnd && c.Transport != "unix" {
+		idle = time.Hour
+	}
+	p, err := startProtoSvc(c.Ifaces, c.Transport, idle)
 	if err != nil {
 		return nil, err
 	}
@@ -323,7 +349,7 @@ func ExecProto(c ProtoCase, bound time.Duration) (*ProtoOutcome, error) {
 			if c.Conns[k].NoRead {
 				// the client sends and never reads: give the service a moment to block on its reply, then vanish
 				for _, s := range segs {
-					conn.SetWriteDeadline(time.Now().Add(200 * time.Millisecond))
+					conn.SetWriteDeadline(time.Now().Add(40 * time.Millisecond))
 					if _, err := conn.Write(s); err != nil {
 						break
 					}
@@ -332,6 +358,13 @@ func ExecProto(c ProtoCase, bound time.Duration) (*ProtoOutcome, error) {
 			}
 			var wwg sync.WaitGroup
 			wwg.Add(1)
+			want := nexp
+			uc, isUnix := conn.(*net.UnixConn)
+			res.toEOF = !abort
+			if abort && isUnix {
+				res.toEOF = true
+				want = -1 // half-close after the last byte and read to EOF: nothing but the expected replies may arrive
+			}
 			go func() {
 				defer wwg.Done()
 				for _, s := range segs {
@@ -340,13 +373,28 @@ func ExecProto(c ProtoCase, bound time.Duration) (*ProtoOutcome, error) {
 						return // the service closed the connection: fine when the model says so
 					}
 				}
+				if abort && isUnix {
+					uc.CloseWrite()
+				}
 			}()
-			want := nexp
 			res.got, res.eof, res.timedOut = readFrames(conn, want, bound)
 			wwg.Wait()
 		}(k, conn, stream, alive, abort, len(exp))
 	}
+	var duringErr error
+	if c.Probe {
+		wg.Add(1)
+		go func() {
+			defer wg.Done()
+			if err := probeGetInfo(probe, p.cfg, bound); err != nil {
+				duringErr = fmt.Errorf("while the test traffic was running: %v", err)
+			}
+		}()
+	}
 	wg.Wait()
+	if duringErr != nil {
+		return out, duringErr
+	}
 
 	// every connection is closed now: resources must be released
 	base := int64(0)
@@ -365,8 +413,15 @@ func ExecProto(c ProtoCase, bound time.Duration) (*ProtoOutcome, error) {
 			return out, fmt.Errorf("active-connection count did not return to 0 after the probe closed")
 		}
 	}
-	if err := p.stop(bound); err != nil {
+	if idle != 0 {
+		if err := p.stopByTimeout(bound); err != nil {
+			return out, err
+		}
+	} else if err := p.stop(bound); err != nil {
 		return out, err
+	}
+	if left := LibGoroutines(bound / 2); left != "" {
+		return out, fmt.Errorf("library goroutines still alive after the serving call returned:\n%s", left)
 	}
 
 	// compare per connection
@@ -415,7 +470,7 @@ func ExecProto(c ProtoCase, bound time.Duration) (*ProtoOutcome, error) {
 					return out, fmt.Errorf("%sreply frame %d (for call %d): %s\n got: %s\n model: %s", pre, i, exp[i].ForCall, d, describeFrames(res.got), describeExp(exp))
 				}
 			}
-			if !pl.alive && !res.eof {
+			if !pl.alive && !res.eof && res.toEOF {
 				return out, fmt.Errorf("%sthe service must end this connection, but no EOF was seen", pre)
 			}
 			if pl.alive && !aborted && res.eof {
